@@ -339,7 +339,13 @@ def run(tier, replay=None):
             Si = steps[i]["S"]
             shared = (fm and len(Si) > 1 and Si[0]["ex"] and Si[1]["ex"]
                       and Si[0]["dir"] == Si[1]["dir"])
-            tag = SHARED_KEY if (kind == "property" and shared) else kind
+            # while two objects share one file_dir (the recorded finding) a
+            # recomputation starts from whatever field the OTHER object left
+            # in the hand-over file: values then agree with a fresh simulation
+            # only to the solver tolerance, contents are not identifiable -
+            # every discrepancy in such a state belongs to that finding
+            tag = SHARED_KEY if (shared and kind in ("property", "ret",
+                                                     "state")) else kind
             rep.violation(
                 f"C12:replay:{tag}:{'file' if fm else 'mem'}:"
                 f"{'>'.join(ops)}",
